@@ -1,5 +1,5 @@
 """C18 correspondence + oracle (sequencer playback emits a balanced, ordered, correctly timed event stream)."""
-import warnings
+import warnings, json
 warnings.filterwarnings("ignore")
 from fractions import Fraction as F
 from tools.framework import Case, Err
@@ -239,6 +239,16 @@ def cases(tier, rng):
         for k in (1, 2, 3, 4):
             bars = [voice(["C", 4, 4, [[v, rand_chord(rng, rng.choice([0, 1, 2]))] for v in rh]], j) for j in range(k)]
             out.append(S([["attach", 0], ["bars", bars, list(range(1, k + 1)), 120]], "parallel:equal"))
+            # the same music with ONE tempo-changing container, in each voice in turn (first, middle, last)
+            for j in sorted({0, k // 2, k - 1}):
+                tb = json.loads(json.dumps(bars))
+                steps = [s_ for s_, e in enumerate(tb[j][3]) if e[1]]
+                if steps:
+                    s_ = steps[len(steps) // 2]
+                    tb[j][3][s_] = tb[j][3][s_][:2] + [rng.choice([60, 90, 200, 33])]
+                    out.append(S([["attach", 0], ["bars", tb, list(range(1, k + 1)), 120]], "parallel:equal-tempo"))
+                    ttr = [["t%d" % i, None, [tb[i], voice(bars[(i + 1) % k], i)]] for i in range(k)]
+                    out.append(S([["tracks", ttr, list(range(3, k + 3)), 100]], "parallel:equal-tempo"))
             trs = [["t%d" % i, rng.choice([None, 0, 7, 42, 127, "Violin", "Acoustic Grand Piano", "no such name"]), [bars[i], voice(bars[(i + 1) % k], i)]] for i in range(k)]
             out.append(S([["attach", 1], ["tracks", trs, list(range(3, k + 3)), 100]], "parallel:equal-tracks"))
             out.append(S([["composition", trs, None, 60]], "parallel:composition"))
@@ -353,6 +363,7 @@ def timeline(evs):
             out.append((t,) + tuple(e))
     return out, t
 
+FINAL_BPM = [None]
 def check_parallel(op, seg, bpm):
     kind = op[0]
     trs = op[1]
@@ -373,6 +384,23 @@ def check_parallel(op, seg, bpm):
     want_on, want_off = [], []
     t0 = F(0)
     for g in groups:
+        if any(len(e) > 2 for b in g for e in b[3]):
+            # a tempo-changing container (only generated inside one common rhythm): from its step on, every voice runs at
+            # the new tempo
+            t = t0
+            for s_ in range(len(g[0][3])):
+                for b in g:
+                    e = b[3][s_]
+                    if len(e) > 2 and e[1]:
+                        bpm = e[2]
+                d = F(240) / (F(bpm) * F(g[0][3][s_][0]))
+                for b in g:
+                    for n in b[3][s_][1] or []:
+                        want_on.append((t, "play") + note_ev(n))
+                        want_off.append((t + d, "stop") + note_ev(n)[:2])
+                t += d
+            t0 = t
+            continue
         for b in g:
             t = t0
             for e in b[3]:
@@ -382,6 +410,7 @@ def check_parallel(op, seg, bpm):
                     want_off.append((t + d, "stop") + note_ev(n)[:2])
                 t += d
         t0 += F(240) / F(bpm) * F(g[0][1], g[0][2])
+    FINAL_BPM[0] = bpm
     got, total = timeline(body)
     sounding = {}
     for ev in got:
@@ -475,7 +504,7 @@ def oracle(c, obs):
             if r:
                 return where + r
             pos = len(trace)
-            want_ret = op[3]
+            want_ret = FINAL_BPM[0]
         for j in (0, 1):
             if attached[j] and k not in ("attach", "detach"):
                 want_obs[j] += [list(e) for e in seg]
